@@ -138,3 +138,38 @@ Proof.
   intros Hi Hb Hl. unfold formula_after_name_rename. cbn [fst snd].
   rewrite (roundtrip_parse (m_rc_of true) nm env e Hi Hb Hl). reflexivity.
 Qed.
+
+(* ---- which scope the pass matches on: the OLD one ------------------------------------------------ *)
+Lemma opt_z_eqb_eq a b : opt_z_eqb a b = true <-> a = b.
+Proof.
+  destruct a, b; cbn [opt_z_eqb]; split; intro H; try discriminate; try reflexivity.
+  - apply Z.eqb_eq in H. congruence.
+  - injection H as ->. apply Z.eqb_refl.
+Qed.
+
+Theorem rename_leaf_scope lower name scope new_name n s f :
+  (s = scope -> lower name = lower n -> rename lower name scope new_name (EDefName n s f) = EDefName new_name s f) /\
+  (s <> scope -> rename lower name scope new_name (EDefName n s f) = EDefName n s f).
+Proof.
+  cbn [rename]. unfold hit. split.
+  - intros -> ->. rewrite text_eqb_refl. cbn [andb].
+    replace (opt_z_eqb scope scope) with true by (symmetry; apply opt_z_eqb_eq; reflexivity). reflexivity.
+  - intro Hs. destruct (opt_z_eqb s scope) eqn:E; [apply opt_z_eqb_eq in E; contradiction|].
+    rewrite andb_false_r. reflexivity.
+Qed.
+
+(* the new scope of the operation does not enter *)
+Theorem update_ignores_new_scope nm env lower name scope new_name ns1 ns2 stored :
+  update_name_in_formula nm env lower name scope new_name ns1 stored
+  = update_name_in_formula nm env lower name scope new_name ns2 stored.
+Proof. reflexivity. Qed.
+
+Theorem update_name_in_formula_spec nm env lower name scope new_name new_scope e :
+  image (m_rc_of true) nm env e = true -> no_bad false e = true -> lower_stable nm e = true ->
+  update_name_in_formula nm env lower name scope new_name new_scope (print (m_rc_of true) nm e)
+  = if text_eqb new_name name then print (m_rc_of true) nm e
+    else print (m_rc_of true) nm (rename lower name scope new_name e).
+Proof.
+  intros Hi Hb Hl. unfold update_name_in_formula. destruct (text_eqb new_name name); [reflexivity|].
+  apply name_rename_in_formula; assumption.
+Qed.
